@@ -44,6 +44,9 @@ CLAIMED = {
  'C20': dict(engine='symexec+slices', technique='bounded symbolic execution of the real constructor / get_num_blocks / helpers with symbolic integer sizes and real rates/durations; AST slice of record()\'s length section executed with symbolic requested and available block counts; delta model of binary64 for duration->blocks and total-sample rounding; SMT decides each identity',
              text='For every windows-per-block count k >= 1 and sample rate > 0 (6 size configurations): samples_per_block*(ants*chans*bytes) = block_size, time_per_block = spb*P/rate; for every duration up to 1e6 s the block count is the whole number of blocks not exceeding it (exact, and in binary64 within the stated 1e-9 boundary tolerance); for every requested and available block count <= 1e6 the recorded count is their minimum and obs_length / total_obs_num_samples equal n*time_per_block / n*spb*P (bit-exact in the delta model); executed recordings of 1..3 blocks draw exactly n*spb*P + taps*P samples, advance the clock accordingly and write SCANLEN / PKTSTART / PKTSTOP consistently; the stand-alone helpers agree with the backend on symbolic inputs.',
              note='durations on a concrete dyadic rate; quantisers abstracted as in C02', ref='DESIGN.md section 4 C20'),
+ 'C14': dict(engine='symexec', technique='bounded symbolic execution of the real from_data (readers on in-memory input), _read_next_block, collect_data_block input branch and record with every input data byte a symbolic integer; requantiser as an uninterpreted function of (value, custom deviation, target statistics) with logged calls; SMT decides decode, output composition and gain stationarity',
+             text='For input recordings of 2-3 blocks (8/4 bit, 1-2 pols, 1-2 antennas, DIRECTIO absent/0/1, several files with a partial last one, unfriendly listing order) and ALL byte values, z3 shows each decoded complex sample is exactly the stored re/im (or nibble pair), the output keeps block size / bit depth / channel, pol and antenna counts and min(requested, input) blocks, every output value is requantise(input + requantise0(synthetic PFB output; sigma*target_std, mean 0)) at the same position, the final target statistics are the block mean / deviation, and the custom deviation is the same term at every sub-block and block (num_subblocks 1..4 incl. partial).',
+             note='requantiser/digitiser abstracted (C09 covers internals); channelized unit-noise deviations symbolic', ref='DESIGN.md section 4 C14'),
 }
 NA = {}
 
